@@ -39,6 +39,11 @@ def run(ctx):
         else:
             pt = (F(rng.randint(-2, 6), 2), F(rng.randint(-2, 6), 2))
         ev.append({"n": n, "nodes": nodes, "pt": pt})
+        # the implicit function AT the control points themselves (every one of them; an interior control point is in general not
+        # on the curve, the value there is a non-zero resultant: seed c19-7 returned 0 at any control node of a cubic)
+        if n >= 2 and rng.random() < 0.5:
+            for j in range(n + 1):
+                ev.append({"n": n, "nodes": nodes, "pt": (nodes[0][j], nodes[1][j])})
 
     def coq_ev(c, obs):
         if obs[0][0] in ("exc", "malformed"):
@@ -51,6 +56,24 @@ def run(ctx):
         """the implicit function vanishes at points of the curve"""
         if "exc" in raw:
             return "raised %s" % raw["exc"]
+        got = dec_res(raw["ok"])
+        if not isinstance(got, F):
+            return "non-finite value"
+        # exact resultant Res_s(x(s) - x, y(s) - y): the implicit function is proportional to it, so both vanish together
+        px, py = oq.to_power(c["nodes"][0]), oq.to_power(c["nodes"][1])
+        n_ = c["n"]
+        px += [F(0)] * (n_ + 1 - len(px)); py += [F(0)] * (n_ + 1 - len(py))
+        p_, q_ = list(px), list(py)
+        p_[0] -= c["pt"][0]; q_[0] -= c["pt"][1]
+        try:
+            r = io._det(io._sylvester(p_, q_))
+        except Exception:
+            return None
+        big = max(abs(x) for rr in c["nodes"] for x in rr) + max(abs(c["pt"][0]), abs(c["pt"][1])) + 1
+        if r != 0 and got == 0:
+            return "the implicit function is 0 at (%s, %s), the exact resultant there is %s" % (c["pt"][0], c["pt"][1], r)
+        if r == 0 and abs(got) > 4096 * U * big ** 6:
+            return "the implicit function is %r at a point where the exact resultant vanishes" % float(got)
         return None
     correspond(ctx, "evaluate", ev, [("hazmat.alg_evaluate", lambda c: [enc_arr(c["nodes"]), enc_f(c["pt"][0]), enc_f(c["pt"][1])], whole)],
                coq_ev, HEADER, "chk_val", judge=judge_ev, configs=("pure",), nontrivial=nt)
